@@ -15,9 +15,12 @@ R = Rules(
         "Clauses a, b, d, e, f, g are small-scope model checks: the checker's own evaluator (rules/_kit_c17.Interp, an interpreter for a "
         "subset of Python over the syntax trees of the analysed program; no repository code is imported or executed) evaluates the "
         "analysed functions on an enumerated family of small concrete configurations and compares the outcome with reference semantics "
-        "written down in this module; collaborators (request message and its copy(), registered resources, link descriptions) are "
-        "symbolic objects supplied by the rule.  All sites are built through the program's own Site.__init__/add_resource, so the "
-        "clauses do not depend on how the tables are spelled or accessed.  (a) for every request path of length 0..4 that is "
+        "written down in this module; collaborators (the request's option set, remote and code, registered resources, link descriptions) are "
+        "symbolic objects supplied by the rule, while request.copy() is the program's own Message.copy / Message.__init__, evaluated like the "
+        "rest.  All sites are built through the program's own Site.__init__/add_resource, so the "
+        "clauses do not depend on how the tables are spelled or accessed.  Registered objects that are false in a boolean context (empty "
+        "collections, __bool__) are part of the families of a, b, c, d and f: presence is decided by the tables' keys, never by the truth value "
+        "of what is registered.  (a) for every request path of length 0..4 that is "
         "registered as a resource -- whatever else is registered as resource or sub-site at its prefixes, at () or at the path itself -- "
         "the lookup returns exactly that resource and a copy of the request with an empty Uri-Path; (b) for every request path of "
         "length 0..4 (with empty components at the end / in the middle) that is not registered as a resource and every subset of its "
@@ -35,15 +38,21 @@ R = Rules(
         "read no per-site state other than the two tables; (e) the message handed to the child is a copy of the request in which only "
         "uri_path is replaced, and Message.get_request_uri evaluated on that copy -- after the exact-match arm, after the prefix arm, "
         "and after two levels of nested sites -- reconstructs the path of the original request, while a message that was never "
-        "stripped yields its own Uri-Path; (f) the listing names exactly the registered resources whose description is not None under "
+        "stripped yields its own Uri-Path; a request that names its path by Uri-Path-Abbrev, entering through Site.render_to_pipe, reaches the "
+        "resource registered at the expanded path (directly or in a nested site) with an empty Uri-Path, and get_request_uri on what that "
+        "resource receives yields the expanded path -- the invariant kept jointly by the expansion, Message.copy, the lookup's default for the "
+        "inherited original path and get_request_uri's test for a stored one; (f) the listing names exactly the registered resources whose description is not None under "
         "'/' + '/'.join(path) with their description, the links of nested sites prefixed with the nested site's path, skips sub-sites "
         "without a listing, and reflects later changes in this site and in nested sites; (g) the RFC 6690 filter, evaluated on a link "
         "set and one filter item (possibly accompanied by items without '='), keeps exactly the links selected by the reference "
         "filter: trailing '*' is a prefix match, anything else equality, rt/if/ct per space-separated token, href on the single "
-        "value, other attributes on any value, the item is split at its first '=', items without '=' are ignored.  Not decided: paths "
+        "value, other attributes on any value, the item is split at its first '=', items without '=' are ignored; (h) a request that begins a fetch (no Block2 option, or Block2 block number 0) is rendered afresh "
+        "by Block2Cache.extract_or_insert -- through which every resource.Resource, the listing included, is served -- and answered with (a block of) "
+        "that rendering, whatever an earlier block-wise fetch of the same client left in the cache, so that the listing fetched block-wise after "
+        "add_resource/remove_resource shows the change (sequences of requests of one client evaluated with the rendering changing in between).  Not decided: paths "
         "longer than 4 components, behaviour with more than one filter item carrying '=', arbitrary interleavings at run time."
     ),
-    rule_text="small-scope model checking with the checker's own evaluator against reference semantics (a, b, d, e, f, g); field ownership over the package with alias-aware writer scan (d); CFG dominance/must-pass and exception-escape analysis of the callers (c)",
+    rule_text="small-scope model checking with the checker's own evaluator against reference semantics (a, b, d, e, f, g, h); field ownership over the package with alias-aware writer scan (d); CFG dominance/must-pass and exception-escape analysis of the callers (c)",
 )
 
 SITE = "resource.Site."
@@ -54,6 +63,7 @@ WKC_QN = "aiocoap.resource.WKCResource"
 FIND = SITE + "_find_child_and_pathstripped_message"
 TABLES = ("_resources", "_subsites")
 HOST = "host.example"
+QUERY = ("k=v",)  # Uri-Query of every request the rule makes: part of what a stripped copy must keep and of the reconstructed URI
 
 
 # ---------------------------------------------------------------------------
@@ -64,67 +74,126 @@ class RegistrationFailed(AnalysisError):
     """a registration the rule needs for its configuration is rejected by add_resource (a fact about the analysed program, reported by C17.d)"""
 
 
+REPEATED_OPTIONS = ("uri_path", "uri_query", "location_path", "location_query", "etags", "if_match")
+CODE_QN = "aiocoap.numbers.codes.Code"
+_MISSING = object()
+
+
+class _OptionValues(dict):
+    """values of a symbolic option set.  Reference model of options.Options (trusted base, transcribed from its item views): a
+    repeatable option is set from any iterable and reads back as a tuple; every other option reads back as it was set."""
+
+    def __setitem__(self, name, v):
+        if name in REPEATED_OPTIONS and not isinstance(v, Opaque):
+            if isinstance(v, Iter):
+                v = tuple(v.it)
+            elif isinstance(v, (list, tuple)):
+                v = tuple(v)
+        dict.__setitem__(self, name, v)
+
+
+def same_value(a, b):
+    if a is b:
+        return True
+    if isinstance(a, (Opaque, Obj)) or isinstance(b, (Opaque, Obj)):
+        return False
+    return type(a) is type(b) and a == b
+
+
 class World:
-    """Evaluator plus factories for the symbolic collaborators.  Reference models (trusted base, transcribed from
-    message.Message.copy and the option accessors): `request.opt.uri_path` is a tuple of str; `request.copy(**kw)` returns a new
-    message that shares everything with the original except its own option set, in which each keyword replaces the option of
-    that name (uri_path: converted to a tuple), and that does not carry over attributes set on the instance later
-    (_original_request_path)."""
+    """Evaluator plus factories for the symbolic collaborators.  A request is a symbolic message: its option set is a
+    symbolic object (reference model: _OptionValues), its remote, code and transport tuning are open objects.  Everything a
+    message *does* is the analysed program's own code: `request.copy(...)` is message.Message.copy evaluated on the syntax
+    tree -- it constructs the copy through the program's Message.__init__ (the new message is a closed object: it has the
+    attributes the program gives it and no others) --, so that what a copy carries over (options, remote, direction, and any
+    attribute a Site stored on the original) is what the program says, not what the rule assumes.  The only stand-ins are for
+    the option container: `Options()` makes an empty symbolic option set and `copy.deepcopy` of a symbolic option set is a
+    symbolic option set with the same values."""
 
     def __init__(self, ctx, stubs=None):
         self.ctx = ctx
         self.prog = ctx.prog
-        self.it = Interp(ctx.prog, stubs=stubs)
+        self.counter = itertools.count(1)
+        all_stubs = {"aiocoap.options.Options": Builtin("Options", lambda it, a, k: self.options("Options()#%d" % next(self.counter), {})),
+                     "copy.deepcopy": Builtin("deepcopy", self._deepcopy)}
+        all_stubs.update(stubs or {})
+        self.it = Interp(ctx.prog, stubs=all_stubs)
         self.site_cls = ctx.prog.cls("resource.Site")
         for name in ("__init__", "add_resource", "remove_resource", "_find_child_and_pathstripped_message", "get_resources_as_linkheader"):
             ctx.need(ctx.prog.lookup_method(SITE_QN, name) is not None, "Site.%s missing" % name)
-        self.counter = itertools.count(1)
+        for name in ("__init__", "copy", "get_request_uri"):
+            ctx.need(ctx.prog.lookup_method(MSG_QN, name) is not None, "Message.%s missing" % name)
 
     # -- symbolic collaborators
-    def resource(self, label, description="absent", path_capable=False):
-        """a registered object: plain resource (optionally with get_link_description) or a foreign PathCapable object"""
-        o = Obj(cls=PC_QN if path_capable else None, label=label)
+    def resource(self, label, description="absent", path_capable=False, falsy=None):
+        """a registered object: plain resource (optionally with get_link_description) or a foreign PathCapable object.
+        `falsy`: the object is false in a boolean context -- "len": it is a collection that is empty at the moment (a
+        queue, a directory, a Site subclass with __len__), "bool": it defines __bool__.  Registration, routing and listing
+        are defined by the tables' keys; the truth value of what is registered plays no part in them."""
+        o = Obj(cls=PC_QN if path_capable else None, label=label + (" (falsy: %s)" % falsy if falsy else ""))
+        if falsy == "len":
+            o.methods["__len__"] = Builtin("__len__", lambda it, a, k: 0)
+        elif falsy == "bool":
+            o.methods["__bool__"] = Builtin("__bool__", lambda it, a, k: False)
         if description != "absent":
             o.methods["get_link_description"] = Builtin("get_link_description", lambda it, a, k, d=description: (dict(d) if d is not None else None))
         return o
 
-    def request(self, path, orig="absent", label="request"):
+    def options(self, label, values):
+        o = Obj(label=label, open_=True)
+        o.attrs = _OptionValues()
+        for name, v in values.items():
+            o.attrs[name] = v
+        o.is_options = True
+        return o
+
+    def _deepcopy(self, it, a, k):
+        v = a[0] if a else None
+        if isinstance(v, Obj) and getattr(v, "is_options", False):
+            return self.options("copy%d of %s" % (next(self.counter), v.label), v.attrs)
+        if isinstance(v, (type(None), bool, int, float, str, bytes)):
+            return v
+        raise AnalysisError("evaluator: copy.deepcopy of %r is outside the evaluator's vocabulary" % (v,))
+
+    def request(self, path, orig="absent", label="request", abbrev=None, response=False, more_options=None):
         it = self.it
-        opt = Obj(label=label + ".opt", open_=True, attrs={"uri_path": tuple(path), "proxy_uri": None, "proxy_scheme": None, "uri_query": (),
-                                                              "uri_path_abbrev": None, "uri_host": None, "uri_port": None})
+        opt = self.options(label + ".opt", dict({"uri_path": tuple(path), "proxy_uri": None, "proxy_scheme": None, "uri_query": QUERY,
+                                                 "uri_path_abbrev": abbrev, "uri_host": None, "uri_port": None}, **(more_options or {})))
         remote = Obj(label=label + ".remote", open_=True, attrs={"scheme": "coap", "hostinfo": HOST, "hostinfo_local": HOST, "is_multicast": False, "is_multicast_locally": False})
-        code = Obj(label=label + ".code", open_=True, methods={"is_response": Builtin("is_response", lambda it_, a, k: False), "is_request": Builtin("is_request", lambda it_, a, k: True)})
-        attrs = {"opt": opt, "remote": remote, "code": code}
+        code = Obj(cls=CODE_QN if CODE_QN in self.prog.classes else None, label=label + ".code", open_=True,
+                   methods={"is_response": Builtin("is_response", lambda it_, a, k: bool(response)), "is_request": Builtin("is_request", lambda it_, a, k: not response)})
+        tuning = Obj(label=label + ".transport_tuning", open_=True)
+        attrs = {"opt": opt, "remote": remote, "code": code, "payload": b"", "token": b"\x17", "mid": 4711, "mtype": None, "transport_tuning": tuning, "version": 1}
         try:
             attrs["direction"] = it.ev(ast.parse("Direction.INCOMING", mode="eval").body, Env(None, self.prog.module("message")))
         except (Raised, AnalysisError):
             pass
-        return self._message(attrs, orig, label)
-
-    def _message(self, attrs, orig, label):
         msg = Obj(cls=MSG_QN, label=label, open_=True, attrs=attrs, private_absent=True)
         if orig != "absent":
             msg.attrs["_original_request_path"] = orig
-        msg.copied_from = None
-        msg.copy_kwargs = None
-
-        def copy(it, a, k):
-            if a:
-                it.throw("TypeError", "copy() takes no positional arguments")
-            nopt = Obj(label="copy%d.opt" % next(self.counter), open_=True, attrs=dict(msg.attrs["opt"].attrs))
-            for name, v in k.items():
-                if name == "uri_path":
-                    v = tuple(it.iterate(v))
-                nopt.attrs[name] = v
-            nattrs = {n: v for n, v in msg.attrs.items() if n != "opt" and not n.startswith("_")}  # attributes set on the instance later are not copied
-            nattrs["opt"] = nopt
-            new = self._message(nattrs, "absent", "copy of " + label)
-            new.copied_from = msg
-            new.copy_kwargs = dict(k)
-            return new
-
-        msg.methods["copy"] = Builtin("copy", copy)
         return msg
+
+    def derived(self, msg, req, rem=_MISSING):
+        """None if `msg` is a message of its own that differs from the request `req` in nothing but its Uri-Path (which is `rem`,
+        if given) -- the same code, remote, token, message id, type, payload and direction, and an option set of its own with the
+        same value for every other option; else what is wrong.  Compared by content, not by how the message was made."""
+        if not (isinstance(msg, Obj) and msg.cls is not None and self.prog.is_subclass(msg.cls, MSG_QN)):
+            return "the message handed on is not a message (%r)" % (msg,)
+        if msg is req:
+            return "the request itself is handed on (not a copy of it)"
+        mopt = msg.attrs.get("opt")
+        if not isinstance(mopt, Obj) or mopt is req.attrs["opt"]:
+            return "the message handed on has no option set of its own (%r)" % (mopt,)
+        for n in ("code", "remote", "token", "mid", "mtype", "payload", "direction"):
+            if n in req.attrs and not same_value(msg.attrs.get(n, _MISSING), req.attrs[n]):
+                return "the message handed on differs from the request in its %s (%r instead of %r)" % (n, msg.attrs.get(n), req.attrs[n])
+        # (an option of the request that was only ever read -- an unknown value -- was never set: nothing to compare)
+        changed = sorted(n for n, v in req.attrs["opt"].attrs.items() if n != "uri_path" and not isinstance(v, Opaque) and not same_value(mopt.attrs.get(n, _MISSING), v))
+        if changed:
+            return "options other than uri_path are replaced in the message handed on: %s" % ", ".join(changed)
+        if rem is not _MISSING and mopt.attrs.get("uri_path") != tuple(rem):
+            return "expected remaining Uri-Path %r, got %r" % (tuple(rem), mopt.attrs.get("uri_path"))
+        return None
 
     # -- the program's own API
     def method(self, site, name):
@@ -214,11 +283,10 @@ def check_lookup(world, site, resources, subsites, path, orig="absent"):
             got_child, msg = out[1]
             if got_child is not child:
                 fails["child"] = "expected child %r, got %r" % (child, got_child)
-            if not (isinstance(msg, Obj) and msg.copied_from is req):
-                fails["copy"] = "the message handed on is not a copy of the request (%r)" % (msg,)
+            why = world.derived(msg, req)
+            if why:
+                fails["copy"] = why
             else:
-                if set(msg.copy_kwargs) != {"uri_path"}:
-                    fails["copy"] = "copy(%s): options other than uri_path are replaced" % ", ".join(sorted(msg.copy_kwargs))
                 got = msg.attrs["opt"].attrs.get("uri_path")
                 if got != rem:
                     fails["remainder"] = "expected remaining Uri-Path %r, got %r" % (rem, got)
@@ -258,11 +326,12 @@ def describe(path, rkeys, skeys):
     return "request path %r, resources at %s, sub-sites at %s" % (tuple(path), sorted(rkeys) or "-", sorted(skeys) or "-")
 
 
-def lookup_family(ctx, world, exact):
-    """run the lookup over the configuration family; -> ({family: [failure text]}, number of evaluations)"""
+def lookup_family(ctx, world, exact, falsy=False):
+    """run the lookup over the configuration family; -> ({family: [failure text]}, number of evaluations).
+    `falsy`: every registered object is false in a boolean context (paths up to three components)."""
     fails = {}
     n = 0
-    for path in PATHS:
+    for path in (PATHS if not falsy else [p for p in PATHS if len(p) <= 3]):
         pre = prefixes(path)
         if exact:
             rsets = [(path,)] + ([(path, pre[1])] if len(pre) > 2 else []) + ([(path, pre[-2])] if len(pre) > 3 else [])
@@ -271,8 +340,8 @@ def lookup_family(ctx, world, exact):
             rsets = [()] + ([(proper[0],)] if proper else []) + ([(proper[-1],)] if len(proper) > 1 else []) + ([tuple(proper)] if len(proper) > 2 else [])
         for rkeys in rsets:
             for skeys in subsets(pre):
-                resources = {k: world.resource("resource@%s" % "/".join(k)) for k in rkeys}
-                subsites = {k: world.resource("subsite@%s" % "/".join(k), path_capable=True) for k in skeys}
+                resources = {k: world.resource("resource@%s" % "/".join(k), falsy="len" if falsy else None) for k in rkeys}
+                subsites = {k: world.resource("subsite@%s" % "/".join(k), path_capable=True, falsy=("bool" if len(k) % 2 else "len") if falsy else None) for k in skeys}
                 site = world.build(resources, subsites)
                 f, out, req = check_lookup(world, site, resources, subsites, path)
                 n += 1
@@ -297,7 +366,7 @@ def families(ctx):
     if key not in _FAMILIES:
         _FAMILIES.clear()
         world = World(ctx)
-        res = {"prog": ctx.prog, "exact": ({}, 0), "prefix": ({}, 0), "diagnosis": "ok", "why": None}
+        res = {"prog": ctx.prog, "exact": ({}, 0), "prefix": ({}, 0), "exact_falsy": ({}, 0), "prefix_falsy": ({}, 0), "diagnosis": "ok", "why": None}
         try:
             res["exact"] = lookup_family(ctx, world, exact=True)
             res["prefix"] = lookup_family(ctx, world, exact=False)
@@ -318,6 +387,14 @@ def families(ctx):
                 msg = str(ex)
             if msg:
                 res["diagnosis"], res["why"] = "registration", msg
+        if res["diagnosis"] == "ok":
+            # the same families over registered objects that are false in a boolean context: evaluated only when the lookup agrees
+            # with the reference on ordinary objects, so that a disagreement here is about the objects' truth value alone
+            try:
+                res["exact_falsy"] = lookup_family(ctx, world, exact=True, falsy=True)
+                res["prefix_falsy"] = lookup_family(ctx, world, exact=False, falsy=True)
+            except RegistrationFailed as ex:
+                res["falsy_registration"] = str(ex)
         _FAMILIES[key] = res
     return _FAMILIES[key]
 
@@ -361,6 +438,11 @@ def a(ctx):
            "lookup: exact match")
     report(ctx, fi, fails, n, ("remainder",), "on an exact match the resource receives the request with an empty Uri-Path", "lookup: exact match leaves no path")
     report(ctx, fi, fails, n, ("pure",), "an exact match modifies neither the registrations nor the incoming request", "lookup: exact match has no side effects")
+    if families(ctx)["diagnosis"] == "ok" and "falsy_registration" not in families(ctx):
+        fails, n = families(ctx)["exact_falsy"]
+        report(ctx, fi, fails, n, LOOKUP_FAMILIES,
+               "a registered resource is found by its key alone: one that is false in a boolean context (an empty collection, __bool__/__len__) is returned like any other -- "
+               "presence in the table is decided by membership, never by the truth value of what is registered", "lookup: exact match whatever the resource's truth value")
 
 
 # ---------------------------------------------------------------------------
@@ -387,6 +469,11 @@ def b(ctx):
            "when no non-empty proper prefix is a registered sub-site (also: empty and one-component paths, sub-sites registered at () or at the full path) the lookup raises KeyError", "lookup: exhaustion")
     report(ctx, fi, fails, n, ("terminates",), "the prefix search terminates", "lookup: termination")
     report(ctx, fi, fails, n, ("pure",), "the lookup modifies neither the registrations nor the incoming request", "lookup: no side effects")
+    if families(ctx)["diagnosis"] == "ok" and "falsy_registration" not in families(ctx):
+        fails, n = families(ctx)["prefix_falsy"]
+        report(ctx, fi, fails, n, LOOKUP_FAMILIES,
+               "a registered sub-site is found by its key alone: one that is false in a boolean context (a Site subclass with __len__ and no members, __bool__) still is the longest "
+               "registered prefix and is neither skipped in favour of a shorter prefix nor answered 4.04", "lookup: longest prefix whatever the sub-site's truth value")
 
 
 # ---------------------------------------------------------------------------
@@ -451,7 +538,8 @@ def c(ctx):
         fi = ctx.prog.func(SITE + name)
         ctx.need(len(params(fi)) == 1 + len(extra), "Site.%s signature changed" % name)
         unknown, delegation, foreign = [], [], []
-        for path, registered_at, as_subsite in ((("a", "b"), ("a", "b"), False), ((), (), False), (("a", "b", "c"), ("a",), True), (("a", ""), ("a",), True), (("zz",), None, False), ((), None, False), (("a", "b"), ("a",), False)):
+        for path, registered_at, as_subsite, falsy in ((("a", "b"), ("a", "b"), False, None), ((), (), False, None), (("a", "b", "c"), ("a",), True, None), (("a", ""), ("a",), True, None), (("zz",), None, False, None),
+                                                        ((), None, False, None), (("a", "b"), ("a",), False, None), (("a", "b"), ("a", "b"), False, "len"), (("a", "b", "c"), ("a",), True, "bool")):
             for child_fails in (False, True):
                 calls = []
                 marker = Obj(label="<result of the child's %s>" % child_method)
@@ -465,7 +553,7 @@ def c(ctx):
                         return marker
                     return Awaitable(later)
 
-                child = world.resource("child", path_capable=as_subsite)
+                child = world.resource("child", path_capable=as_subsite, falsy=falsy)  # falsy: a child that is false in a boolean context is delegated to like any other
                 for m in ("render", "render_to_pipe", "needs_blockwise_assembly", "add_observation"):
                     child.methods[m] = Builtin(m, lambda it_, a, k, _m=m: child_call(it_, a, k, _m))
                 site = world.build({} if (as_subsite or registered_at is None) else {registered_at: child}, {registered_at: child} if as_subsite else {})
@@ -494,7 +582,7 @@ def c(ctx):
                 if okc:
                     m_, a_, k_, reqs = calls[0]
                     msg = reqs[0] if name == "render_to_pipe" else (a_[0] if a_ else None)
-                    okc = isinstance(msg, Obj) and msg.copied_from is req and msg.attrs["opt"].attrs.get("uri_path") == rem
+                    okc = world.derived(msg, req, rem) is None
                     if name == "render_to_pipe":
                         okc = okc and a_ and a_[0] is pipe
                     if extra:
@@ -616,8 +704,9 @@ def d_histories(ctx, add, rem, init):
     site = world.new_site()
     model = Model()
     objs = {
-        "r1": world.resource("r1", {"rt": "one"}), "r2": world.resource("r2"), "r3": world.resource("r3", {}), "root": world.resource("root", {"ct": "40"}),
-        "s1": world.resource("s1", path_capable=True), "s2": world.resource("s2", path_capable=True), "s3": world.resource("s3", path_capable=True),
+        # r3 / s3: objects that are false in a boolean context (empty collections) are registered, found and removed like any other
+        "r1": world.resource("r1", {"rt": "one"}), "r2": world.resource("r2"), "r3": world.resource("r3", {}, falsy="len"), "root": world.resource("root", {"ct": "40"}),
+        "s1": world.resource("s1", path_capable=True), "s2": world.resource("s2", path_capable=True), "s3": world.resource("s3", path_capable=True, falsy="bool"),
     }
     history = [
         ("add", ["a"], "r1"), ("add", ("a", "b"), "s1"), ("add", [], "root"), ("add", ("a", "b", "c"), "r2"), ("add", ["a", "b", "c"], "s2"),
@@ -749,7 +838,10 @@ def reconstructed_path(world, msg):
     prefix = "coap://" + HOST
     if not uri.startswith(prefix):
         return None, "get_request_uri returns %r" % uri
-    return uri[len(prefix):], uri
+    path, _sep, query = uri[len(prefix):].partition("?")
+    if query != "&".join(QUERY):
+        return None, "get_request_uri returns %r (the request's query %r is not in it)" % (uri, "&".join(QUERY))
+    return path, uri
 
 
 def _urlun(fn):
@@ -847,6 +939,91 @@ def e(ctx):
             nested.append("%s: the twice-stripped message reports %s" % (where, diag))
     ctx.ob("through nested sites the original request path survives every stripping step (an inner site keeps the outer site's stored original)", not nested, fi, fi.node,
            construct="original request path: nested sites", detail=nested[0] if nested else None)
+    e_abbreviated(ctx, world)
+
+
+def abbreviation_registry(ctx, world):
+    """{number: path components} -- the package's registry of Uri-Path-Abbrev values: the module-level dictionary constant(s) of
+    numbers.uri_path_abbrev that map integers to tuples of text (whatever they are called), read by the checker's evaluator"""
+    mod = ctx.prog.module("numbers.uri_path_abbrev")
+    out = {}
+    for st in mod.tree.body:
+        names = [t.id for t in (st.targets if isinstance(st, ast.Assign) else [st.target] if isinstance(st, ast.AnnAssign) and st.value is not None else []) if isinstance(t, ast.Name)]
+        for name in names:
+            v = world.it.module_const(mod, name)
+            if isinstance(v, dict):
+                for k, p in v.items():
+                    if isinstance(k, int) and not isinstance(k, bool) and isinstance(p, (tuple, list)) and p and all(isinstance(c_, str) for c_ in p):
+                        out[k] = tuple(p)
+    return out
+
+
+def e_abbreviated(ctx, world):
+    """The entry point Site.render_to_pipe accepts a request that names its path by a Uri-Path-Abbrev option and expands it before
+    routing.  Three places keep one invariant -- "the message the lookup receives either carries the original request path as the
+    Site stored it, or carries no stored path at all and its own Uri-Path is the request path": the expansion (which message it
+    hands on: the request rewritten in place, or a copy), Message.copy (which attributes a copy carries over) and the two readers
+    (the lookup's default for the inherited original, get_request_uri's test for a stored one).  Each may change as long as the
+    chain holds; it is decided end to end, through the program's own render_to_pipe, expansion, copy(), lookup and
+    get_request_uri: the resource registered at the expanded path (directly, or inside a nested site) is the one that renders,
+    sees an empty Uri-Path, and reconstructs the URI of the expanded path."""
+    rfi = ctx.prog.func(SITE + "render_to_pipe")
+    gfi = ctx.prog.func("message.Message.get_request_uri")
+    registry = abbreviation_registry(ctx, world)
+    ctx.need(bool(registry), "no registry of Uri-Path-Abbrev values (integer -> path components) found in numbers.uri_path_abbrev")
+    chosen = []
+    for length in sorted({len(p) for p in registry.values()}):
+        chosen.append(min(k for k, p in registry.items() if len(p) == length))
+    routing, uris, plain = [], [], []
+    n = 0
+    for number in chosen[:3]:
+        full = registry[number]
+        want = uri_path_of(full)
+        got, diag = reconstructed_path(world, world.request((), abbrev=number))
+        if got != want:
+            plain.append("Uri-Path-Abbrev %d (%s): %s" % (number, want, diag))
+            continue
+        for split in sorted({0, 1, len(full) - 1}):
+            if split >= len(full):
+                continue
+            calls = []
+
+            def render_to_pipe(it_, a, k):
+                calls.append((list(a), a[0].attrs.get("request") if a and isinstance(a[0], Obj) else None))
+                return Awaitable(lambda: None)
+
+            leaf = world.resource("resource registered at %s" % want)
+            leaf.methods["render_to_pipe"] = Builtin("render_to_pipe", render_to_pipe)
+            if split == 0:
+                site = world.build({full: leaf}, {})
+                where = "Uri-Path-Abbrev %d with a resource registered at %r" % (number, full)
+            else:
+                inner = world.new_site("inner")
+                world.build_into(inner, Model(), [(full[split:], leaf)])
+                site = world.build({}, {full[:split]: inner})
+                where = "Uri-Path-Abbrev %d with a site nested at %r holding a resource at %r" % (number, full[:split], full[split:])
+            req = world.request((), abbrev=number)
+            pipe = Obj(label="pipe", open_=True, attrs={"request": req})
+            out = world.it.run(world.method(site, "render_to_pipe"), [pipe])
+            n += 1
+            if out[0] != "return" or len(calls) != 1 or not (calls[0][0] and calls[0][0][0] is pipe):
+                routing.append("%s: render_to_pipe %s; the resource was called %d time(s)" % (where, show_outcome(out), len(calls)))
+                continue
+            msg = calls[0][1]
+            if not (isinstance(msg, Obj) and isinstance(msg.attrs.get("opt"), Obj)) or msg.attrs["opt"].attrs.get("uri_path") != ():
+                routing.append("%s: the resource receives %r with Uri-Path %r instead of ()" % (where, msg, msg.attrs["opt"].attrs.get("uri_path") if isinstance(msg, Obj) and isinstance(msg.attrs.get("opt"), Obj) else None))
+                continue
+            got, diag = reconstructed_path(world, msg)
+            if got != want:
+                uris.append("%s: the message the resource receives reports %s instead of the path %s" % (where, diag, want))
+    ctx.ob("get_request_uri of a message that names its path by Uri-Path-Abbrev composes the path from the registered expansion", not plain, gfi, gfi.node,
+           construct="get_request_uri: abbreviated path", detail=plain[0] if plain else None)
+    ctx.ob("a request that names its path by Uri-Path-Abbrev is routed by Site.render_to_pipe like a request for the expanded path: the resource registered there "
+           "(directly or inside a nested site) renders it and sees an empty Uri-Path", not routing, rfi, rfi.node, construct="Uri-Path-Abbrev: routing",
+           detail=routing[0] if routing else "%d configurations evaluated" % n)
+    ctx.ob("the resource reached through an expanded Uri-Path-Abbrev can still reconstruct the original request URI: what the expansion hands to the lookup (the request itself or a copy "
+           "made by Message.copy) is read by the lookup and by get_request_uri as a message whose request path is the expanded path", not uris, rfi, rfi.node,
+           construct="Uri-Path-Abbrev: original request path", detail=uris[0] if uris else "%d configurations evaluated" % n)
 
 
 # ---------------------------------------------------------------------------
@@ -939,7 +1116,9 @@ def f(ctx):
 
     # --- plain resources
     shown = [(("a",), world.resource("a", {"rt": "temperature", "ct": "40"})), (("b", "c"), world.resource("bc")), (("d",), world.resource("d", {})),
-             (("e", ""), world.resource("e/", {"if": "core.s"})), ((), world.resource("root", {"title": "root"}))]
+             (("e", ""), world.resource("e/", {"if": "core.s"})), ((), world.resource("root", {"title": "root"})),
+             # listed like any other: objects that are false in a boolean context (an empty collection resource)
+             (("q",), world.resource("empty queue", {"rt": "queue"}, falsy="len")), (("q", "r"), world.resource("undescribed empty queue", falsy="bool"))]
     site, model = site_with(shown)
     msg = compare_listing(world, site, model)
     ctx.ob("every registered resource whose description is not None (also {} and resources without get_link_description) is listed under '/' + '/'.join(<its registered path>) with the attributes of its description",
@@ -961,12 +1140,17 @@ def f(ctx):
     inner, inner_model = site_with([(("x",), world.resource("x", {"rt": "y"})), (("y", "z"), world.resource("yz")), ((), world.resource("inner root", {})), (("n",), deep)])
     empty, empty_model = site_with([])
     foreign = world.resource("foreign PathCapable", path_capable=True)
-    outer, outer_model = site_with([(("a",), world.resource("a", {"rt": "temperature"})), (("s",), inner), (("t", "u"), foreign), (("v",), empty), (("a", "w"), deep)])
+    # a sub-site that is false in a boolean context (a collection-like site without members of its own) and offers a listing
+    falsy_sub = world.resource("falsy sub-site with a listing", path_capable=True, falsy="len")
+    falsy_links = [("/k", (("rt", "z"),)), ("/k/l", ())]
+    falsy_sub.methods["get_resources_as_linkheader"] = Builtin("get_resources_as_linkheader", lambda it, a, k: Obj(label="listing of the falsy sub-site", attrs={
+        "links": [Obj(label="link", attrs={"href": h, "attr_pairs": [list(p_) for p_ in pairs]}) for h, pairs in falsy_links]}))
+    outer, outer_model = site_with([(("a",), world.resource("a", {"rt": "temperature"})), (("s",), inner), (("t", "u"), foreign), (("v",), empty), (("a", "w"), deep), (("f",), falsy_sub)])
 
     def reference():
         ref_deep = spec_listing(deep_model, {id(r_): description_of(r_) for r_ in deep_model.resources.values()}, {})
         ref_inner = spec_listing(inner_model, {id(r_): description_of(r_) for r_ in inner_model.resources.values()}, {id(deep): ref_deep})
-        return {id(inner): ref_inner, id(deep): ref_deep, id(empty): [], id(foreign): None}
+        return {id(inner): ref_inner, id(deep): ref_deep, id(empty): [], id(foreign): None, id(falsy_sub): list(falsy_links)}
 
     msg = compare_listing(world, outer, outer_model, reference())
     ctx.ob("the links of a nested site (taken from its own get_resources_as_linkheader()) are listed with the nested site's path prefixed to their href and with their attributes, through several levels; "
@@ -1124,6 +1308,105 @@ def g(ctx):
 
 
 # ---------------------------------------------------------------------------
+# C17.h
+
+B2C_QN = "aiocoap.blockwise.Block2Cache"
+BT_QN = "aiocoap.optiontypes.BlockOption.BlockwiseTuple"
+TD_QN = "aiocoap.util.asyncio.timeoutdict.TimeoutDict"
+
+
+@R.clause("C17.h", "a request that begins a fetch of a resource (no Block2 option, or Block2 block number 0) is rendered afresh, whatever an earlier block-wise fetch left in the resource's Block2 cache: "
+                   "the listing fetched after add_resource / remove_resource shows the change, also when it is fetched block-wise")
+def h(ctx):
+    """'Adding or removing a resource takes effect for the next request' and 'the listing names exactly the registered resources'
+    are statements about what a client is *served*.  Every resource.Resource -- WKCResource included -- is served through
+    blockwise.Block2Cache.extract_or_insert, which keeps the rendering of a block-wise fetch so that the later blocks (number
+    > 0) are slices of one consistent body.  The two statements therefore need: a request that begins a fetch -- one without a
+    Block2 option, or with Block2 block number 0 (early negotiation) -- is never answered from that store; the response builder
+    runs for it and the answer is (a block of) what the builder returned.  Decided by evaluating the program's own
+    extract_or_insert (and Message._extract_block / Message.copy behind it) on sequences of requests of one client for one
+    resource with one query, the rendering changing between the requests.  Stand-ins: the cache's container is a dict (an entry
+    within its lifetime; TimeoutDict itself is C06's), the request's cache key is a constant (same resource, same query), a
+    block option value is a symbolic (number, more, size exponent) value with the program's own BlockwiseTuple properties.
+    What later blocks are served, 4.08 for unknown transfers and the slicing arithmetic are not C17's business (C06)."""
+    prog = ctx.prog
+    fi = prog.func("blockwise.Block2Cache.extract_or_insert")
+    ctx.need(len(params(fi)) == 2, "Block2Cache.extract_or_insert signature changed")
+    ctx.need(BT_QN in prog.classes, "optiontypes.BlockOption.BlockwiseTuple missing")
+    holder = {}
+
+    def block(it, a, k):
+        names = ("block_number", "more", "size_exponent")
+        vals = dict(zip(names, a))
+        vals.update(k)
+        if sorted(vals) != sorted(names) or len(a) > 3:
+            it.throw("TypeError", "BlockwiseTuple takes block_number, more, size_exponent")
+        triple = tuple(vals[n_] for n_ in names)
+        o = Obj(cls=BT_QN, label="Block%r" % (triple,), attrs=vals)
+        o.methods["__iter__"] = Builtin("__iter__", lambda it_, a_, k_: Iter(iter(triple), "block option fields"))
+        o.methods["__getitem__"] = Builtin("__getitem__", lambda it_, a_, k_: it_._py(lambda: triple[a_[0]]))
+        o.methods["__len__"] = Builtin("__len__", lambda it_, a_, k_: 3)
+        o.methods["__eq__"] = Builtin("__eq__", lambda it_, a_, k_: (tuple(a_[0].attrs[n_] for n_ in names) if isinstance(a_[0], Obj) and a_[0].cls == BT_QN else a_[0]) == triple)
+        return o
+
+    world = World(ctx, stubs={TD_QN: Builtin("TimeoutDict", lambda it, a, k: {}), BT_QN: Builtin("BlockwiseTuple", block)})
+    it = world.it
+    # does the listing resource go through the cache at all?
+    wkc = Obj(cls=WKC_QN, label="wkc", open_=True)
+    out = it.run(it.getattr_(wkc, "needs_blockwise_assembly"), [world.request((".well-known", "core"))])
+    if out != ("return", True):
+        ctx.note("C17.h not evaluated: WKCResource.needs_blockwise_assembly %s -- the listing is not served through Block2Cache" % show_outcome(out))
+        return
+    decision, served = [], []
+    n = 0
+    for max_payload, max_exp in ((1024, 6), (32, 1)):
+        for first in (None, (0, False, 0)):
+            for middle in (None, (1, False, 0)):
+                for second in (None, (0, False, 0), (0, False, 1)):
+                    cache = it.instantiate(ClassVal(B2C_QN), [], {})
+                    remote = Obj(label="remote", open_=True, attrs={"maximum_payload_size": max_payload, "maximum_block_size_exp": max_exp, "blockwise_key": ("the client",),
+                                                                     "scheme": "coap", "hostinfo": HOST, "hostinfo_local": HOST, "is_multicast": False, "is_multicast_locally": False})
+                    get = world.request(()).attrs["code"]  # one client, one request code: the requests of a sequence belong to the same transfer
+                    history = []
+                    for step, (b2, fill) in enumerate(((first, b"A"), (middle, b"M"), (second, b"B"))):
+                        if step == 1 and b2 is None:
+                            continue
+                        req = world.request((), label="request %d" % (step + 1), more_options={"block2": block(it, list(b2), {}) if b2 is not None else None, "block1": None})
+                        req.attrs["remote"] = remote
+                        req.attrs["code"] = get
+                        req.methods["get_cache_key"] = Builtin("get_cache_key", lambda it_, a, k: ("cache key: same resource, same query",))
+                        rendering = world.request((), label="rendering %s" % fill.decode(), response=True, more_options={"block2": None, "block1": None})
+                        rendering.attrs["payload"] = fill * 40
+                        rendering.attrs["remote"] = None
+                        built = []
+
+                        def builder(it_, a, k, _r=rendering, _b=built):
+                            _b.append(1)
+                            return Awaitable(lambda: _r)
+
+                        out = it.run(it.getattr_(cache, "extract_or_insert"), [req, Builtin("response_builder", builder)])
+                        history.append("Block2 %s" % ("absent" if b2 is None else "(%d, %s, %d)" % b2))
+                        if step == 1:
+                            continue  # a later block: what it is served is C06's business
+                        n += 1
+                        where = "a client whose transport takes %d bytes sends %s, the rendering changing in between -- on the last request" % (max_payload, ", then ".join(history))
+                        if len(built) != 1:
+                            decision.append("%s the resource is rendered %d time(s); %s" % (where, len(built), show_outcome(out)))
+                            continue
+                        if out[0] != "return":
+                            served.append("%s the resource is rendered, but extract_or_insert %s" % (where, show_outcome(out)))
+                            continue
+                        res = out[1]
+                        body = res.attrs.get("payload") if isinstance(res, Obj) else None
+                        if not (res is rendering or (isinstance(body, bytes) and body and set(body) == set(fill))):
+                            served.append("%s the answer is not taken from the fresh rendering (payload %r...)" % (where, body[:8] if isinstance(body, bytes) else body))
+    ctx.ob("a request that begins a fetch (no Block2 option, or Block2 block number 0) has the resource rendered, exactly once -- whatever an earlier fetch of the same client stored for its later blocks",
+           not decision, fi, fi.node, construct="Block2 cache: a new fetch is rendered afresh", detail=decision[0] if decision else "%d requests evaluated" % n)
+    ctx.ob("the answer to a request that begins a fetch is the fresh rendering, or a block of it (registrations and removals made since an earlier block-wise fetch of the listing are visible)",
+           not served, fi, fi.node, construct="Block2 cache: a new fetch is served the fresh rendering", detail=served[0] if served else "%d requests evaluated" % n)
+
+
+# ---------------------------------------------------------------------------
 F_R = "aiocoap/resource.py"
 F_M = "aiocoap/message.py"
 
@@ -1194,3 +1477,23 @@ R.seed("C17.g", F_R, "            except ValueError:\n                continue  
 R.seed("C17.g", F_R, "                filters.append(lambda link: matchexp(getattr(link, k)))", "                filters.append(lambda link: any(matchexp(c) for c in getattr(link, k)))", "href matched per character")
 R.seed("C17.g", F_R, "                k, v = q.split(\"=\", 1)\n", "                k, v = q.split(\"=\")\n", "a value containing '=' makes the item be ignored")
 R.seed("C17.g", F_R, "        while filters:\n            links.links = filter(filters.pop(), links.links)\n", "        while filters:\n            filter(filters.pop(), links.links)\n", "filters are evaluated but not applied")
+# registered objects that are false in a boolean context (C17.a/b/c/d/f)
+R.seed("C17.a", F_R, "        if request.opt.uri_path in self._resources:\n            stripped = request.copy(uri_path=())", "        if self._resources.get(request.opt.uri_path):\n            stripped = request.copy(uri_path=())", "presence in the table decided by the truth value of the registered resource: an empty collection resource is answered 4.04")
+R.seed("C17.b", F_R, "            if path in self._subsites:\n                res = self._subsites[path]\n", "            res = self._subsites.get(path)\n            if res:\n", "a sub-site that is false in a boolean context is skipped in favour of a shorter prefix")
+R.seed("C17.c", F_R, "            raise error.NotFound()\n        else:\n            return await child.render(subrequest)\n", "            raise error.NotFound()\n        else:\n            if not child:\n                raise error.NotFound()\n            return await child.render(subrequest)\n", "render answers 4.04 for a registered resource that is false in a boolean context")
+R.seed("C17.d", F_R, "        if isinstance(path, str):\n            raise ValueError(\"Paths should be tuples or lists of strings\")\n", "        if isinstance(path, str):\n            raise ValueError(\"Paths should be tuples or lists of strings\")\n        if not resource:\n            return\n", "an object that is false in a boolean context is silently not registered")
+R.seed("C17.f", F_R, "            if hasattr(resource, \"get_resources_as_linkheader\"):", "            if resource and hasattr(resource, \"get_resources_as_linkheader\"):", "the links of a sub-site that is false in a boolean context are not listed")
+R.seed("C17.f", F_R, "            if hasattr(resource, \"get_link_description\"):", "            if resource and hasattr(resource, \"get_link_description\"):", "a resource that is false in a boolean context is listed without its description")
+# Message.copy is the program's own (C17.e), Uri-Path-Abbrev end to end
+R.seed("C17.e", F_M, "        new.remote = kwargs.pop(\"remote\", self.remote)\n", "        new.remote = kwargs.pop(\"remote\", None)\n", "Message.copy loses the remote: the stripped message is not the request with a shorter path")
+R.seed("C17.e", F_R, "        _expand_upa(request.request)\n", "        _expand_upa(request.request.copy())\n", "the Uri-Path-Abbrev expansion is applied to a copy that is thrown away: the abbreviated request is not routed")
+R.seed("C17.e", F_R, "            request.opt.uri_path = uri_path_abbrev._map[request.opt.uri_path_abbrev]\n", "            request.opt.uri_path = uri_path_abbrev._map[request.opt.uri_path_abbrev]\n            request._original_request_path = None\n",
+       "the expansion hands on a message carrying a stored original path of None, which the lookup takes for a real path: the resource cannot reconstruct the URI")
+# C17.h
+F_B = "aiocoap/blockwise.py"
+R.seed("C17.h", F_B, "        if req.opt.block2 is None or req.opt.block2.block_number == 0:\n            assembled = await response_builder()\n", "        if req.opt.block2 is None:\n            assembled = await response_builder()\n", "a request for block 0 is served from the cache (or 4.08), never rendered")
+R.seed("C17.h", F_B, "        if req.opt.block2 is None or req.opt.block2.block_number == 0:\n            assembled = await response_builder()\n",
+       "        if req.opt.block2 is None or req.opt.block2.block_number == 0:\n            try:\n                assembled = self._completes[block_key]\n            except KeyError:\n                assembled = await response_builder()\n",
+       "every request is served the stored rendering while the entry lives: the listing does not show later registrations")
+R.seed("C17.h", F_B, "            self._completes[block_key] = assembled\n", "            assembled = self._completes.setdefault(block_key, assembled) if hasattr(self._completes, \"setdefault\") else assembled\n            self._completes[block_key] = assembled\n",
+       "the fresh rendering is replaced by the stored one before it is served")
